@@ -530,23 +530,32 @@ impl Server {
     /// Process wake-up requests for blocked clients
     fn process_wakeups(&self) -> Result<bool> {
         let wakeups = self.blocking_manager.process_wakeups();
-        if wakeups.is_empty() {
-            return Ok(false);
-        }
+        let mut did_work = !wakeups.is_empty();
         
         for wakeup in wakeups {
             self.wake_client(wakeup)?;
         }
         
-        Ok(true)
+        Ok(did_work)
     }
     
     /// Wake up a specific blocked client with data
     fn wake_client(&self, wakeup: WakeupRequest) -> Result<()> {
+        // A registration can outlive its call: the client may have been served through another of
+        // its keys, timed out, or gone away. Popping for it would throw the element away.
+        let still_blocked = self.connections.with_connection(wakeup.conn_id, |conn| {
+            matches!(conn.state, ConnectionState::Blocked(_))
+        }).unwrap_or(false);
+        if !still_blocked {
+            let _ = self.blocking_manager.unregister_client(wakeup.db, wakeup.conn_id);
+            return Ok(());
+        }
+        
         // Perform atomic pop based on the operation type
+        // (a key that meanwhile holds another type yields nothing: the client keeps waiting)
         let value = match wakeup.op_type {
-            super::connection::BlockingOp::BLPop => self.storage.lpop(wakeup.db, &wakeup.key)?,
-            super::connection::BlockingOp::BRPop => self.storage.rpop(wakeup.db, &wakeup.key)?,
+            super::connection::BlockingOp::BLPop => self.storage.lpop(wakeup.db, &wakeup.key).unwrap_or(None),
+            super::connection::BlockingOp::BRPop => self.storage.rpop(wakeup.db, &wakeup.key).unwrap_or(None),
             super::connection::BlockingOp::XReadBlock(_) => {
                 // XReadBlock not implemented yet, skip for now
                 return Ok(());
@@ -580,6 +589,18 @@ impl Server {
                 // Execute the result and ignore any connection errors
                 let _ = result;
             }
+            
+            // The call is over: drop the registrations under the client's other keys
+            let _ = self.blocking_manager.unregister_client(wakeup.db, wakeup.conn_id);
+        } else {
+            // Someone else popped the element first. The client keeps waiting, at the head of the
+            // queue and with its deadline (it was taken out of the registry to be woken).
+            self.blocking_manager.requeue_front(wakeup.db, &wakeup.key, super::blocking::BlockedClient {
+                conn_id: wakeup.conn_id,
+                blocked_at: Instant::now(),
+                deadline: wakeup.deadline,
+                op_type: wakeup.op_type.clone(),
+            });
         }
         // If value is None (list was empty), the client should be timed out normally
         // This is correct behavior - multiple wake-ups for same item result in only one getting data
